@@ -43,6 +43,13 @@ ASSUMPTIONS = [
     'aliases and keyword renamings are recognised by the markers and closure cells left by '
     'biogeme/deprecated.py (a wrapper built differently is not seen; import fails loudly if the '
     '__deprecated__ marker and the closure disagree)',
+    'the replacement of an obsolete keyword is found without the renaming table under test: it is the '
+    'keyword the function acts on (signature; for the BIOGEME constructor also the parameter names of '
+    'biogeme.parameters.Parameters, which it takes through **kwargs) that carries the same name in the '
+    'new spelling; only an old keyword without such a namesake (seed_param, parameter_file, bootstrap) '
+    'is compared with the keyword its table names',
+    'values of constructor keywords that differ from the default are a fixed list filtered by the '
+    "parameter's own validity checks (biogeme.default_parameters); the default itself stays in the pool",
     'arguments follow the signature of the replacement (positional, keyword and obsolete keyword '
     'spelling); receivers and arguments come from small per-signature generators; a call that '
     'raises the same exception under both names counts as equal behaviour',
@@ -114,6 +121,31 @@ class Alias:
         self.id = f'{_qual(cls)}.{old_name}' if cls is not None else f'{module}.{old_name}'
 
 
+def norm_name(s):
+    return s.replace('_', '').lower()
+
+
+def _open_keywords(cls, func):
+    """{name: ParameterTuple} of the keywords a function acts on through **kwargs (names that its
+    signature cannot show). The BIOGEME constructor forwards every keyword that names a parameter of
+    biogeme.parameters.Parameters to that parameter (and silently drops every other one)."""
+    import biogeme.biogeme as bio
+    from biogeme.parameters import Parameters
+
+    try:
+        sig = inspect.signature(func)
+    except (TypeError, ValueError):
+        return {}
+    if not any(p.kind == p.VAR_KEYWORD for p in sig.parameters.values()):
+        return {}
+    if cls is not None and issubclass(cls, bio.BIOGEME) and func.__name__ == '__init__':
+        return {t.name: t for t in Parameters().all_parameters_dict.values()}
+    return {}
+
+
+_NO_DEFAULT = ('<no default known>',)
+
+
 class KwRename:
     def __init__(self, module, cls, func_name, wrapper, old_kw, new_kw):
         c = _cells(wrapper)
@@ -124,9 +156,36 @@ class KwRename:
         self.func = c['func']
         self.map = dict(c['obsolete_params'])
         self.old_kw = old_kw
-        self.new_kw = new_kw
+        self.new_kw = new_kw  # what the table of the wrapper (and hence its warning) names
         base = f'{_qual(cls)}.{func_name}' if cls is not None else f'{module}.{func_name}'
         self.id = f'{base}:{old_kw}'
+        # names the function acts on, found WITHOUT the table under test: its signature, and what it
+        # takes through **kwargs
+        try:
+            params = list(inspect.signature(self.func).parameters.values())
+        except (TypeError, ValueError):
+            params = []
+        self.accepted = {p.name: p for p in params if p.kind in (p.POSITIONAL_OR_KEYWORD, p.KEYWORD_ONLY)}
+        self.has_kwargs = any(p.kind == p.VAR_KEYWORD for p in params)
+        self.open = _open_keywords(cls, self.func)
+        # purpose rule: the replacement of an old keyword is the accepted keyword that carries the same
+        # name in the new spelling (saveIterations -> save_iterations), whatever the table says
+        same = sorted(n for n in set(self.accepted) | set(self.open)
+                      if norm_name(n) == norm_name(old_kw) and n != old_kw)
+        self.purpose_kw = same[0] if len(same) == 1 else None
+        # the keyword the new-spelling side of the comparison is called with
+        self.target_kw = self.purpose_kw or new_kw
+
+    @property
+    def default(self):
+        """Default of the replacement keyword, _NO_DEFAULT if none is known."""
+        t = self.target_kw
+        if t in self.accepted:
+            p = self.accepted[t]
+            return _NO_DEFAULT if p.default is p.empty else p.default
+        if t in self.open:
+            return self.open[t].value
+        return _NO_DEFAULT
 
 
 class Pair:
@@ -208,10 +267,6 @@ PAIRS = {p.id: p for p in PAIR_LIST}
 KW_PAIRS = {p.id: p for p in KW_PAIR_LIST}
 
 
-def norm_name(s):
-    return s.replace('_', '').lower()
-
-
 def _namespace_lookup(item_cls, module_name, name):
     """The object a user reaches under `name` next to the alias: class attribute, else module global."""
     if item_cls is not None:
@@ -274,19 +329,19 @@ def target_findings(alias: Alias):
 def rename_target_findings(r: KwRename):
     found = []
     try:
-        sig = inspect.signature(r.func)
+        inspect.signature(r.func)
     except (TypeError, ValueError):
         return found
-    params = [p for p in sig.parameters.values()]
-    accepted = {p.name for p in params if p.kind in (p.POSITIONAL_OR_KEYWORD, p.KEYWORD_ONLY)}
-    has_kwargs = any(p.kind == p.VAR_KEYWORD for p in params)
+    accepted = set(r.accepted) | set(r.open)  # by signature, and through **kwargs
     candidates = accepted | {v for v in r.map.values() if v}
     same = sorted(n for n in candidates if norm_name(n) == norm_name(r.old_kw) and n != r.old_kw)
     if same and r.new_kw not in same:
         found.append(f'{r.id}: obsolete keyword {r.old_kw!r} is mapped to {r.new_kw!r} although '
                      f'{same} is its new spelling')
-    if r.new_kw and r.new_kw not in accepted and not has_kwargs:
-        found.append(f'{r.id}: {r.old_kw!r} is mapped to {r.new_kw!r}, which {r.func_name} does not accept')
+    if r.new_kw and r.new_kw not in accepted and (not r.has_kwargs or r.open):
+        found.append(f'{r.id}: {r.old_kw!r} is mapped to {r.new_kw!r}, which {r.func_name} does not accept'
+                     + (' (not in its signature, and not one of the names it takes through **kwargs)'
+                        if r.has_kwargs else ''))
     return found
 
 # ---------------------------------------------------------------------------------------------
@@ -575,7 +630,8 @@ def _run_side(spec, which, make_world, resolve, obsolete, with_before=True):
         return dict(unresolved=False, before=before, exc=exc, result=canon(result),
                     warnings=_warn_list(ws),
                     after=canon([world.receiver, [v for _, v in world.args], world.extras]),
-                    files=_files_snapshot(wd), nargs=len(world.args))
+                    files=_files_snapshot(wd), nargs=len(world.args),
+                    arg_names=[n for n, _ in world.args], info=getattr(world, 'info', None))
     finally:
         os.chdir('/')
 
@@ -1153,9 +1209,11 @@ def _st_biogeme(draw, method, known):
     elif method == 'simulate':
         w['formulas'] = 'simulate'
         a['the_beta_values'] = {n: draw(gen.real_values(-1.0, 1.0)) for n in free}
+        if draw(st.integers(0, 5)) == 5:
+            a['the_beta_values'] = None  # legitimate: the initial values are used
     elif method == 'estimate':
         a['recycle'] = False
-        a['run_bootstrap'] = draw(st.sampled_from([False, True, 3]))
+        a['run_bootstrap'] = draw(st.sampled_from([True, False, 3]))  # unlike the default first
     w['args'] = a
     return w
 
@@ -1217,8 +1275,9 @@ def _st_results(draw, method, known):
             a['subset'] = draw(st.one_of(st.none(), st.lists(st.sampled_from(free + ['B_UNKNOWN']), min_size=1,
                                                               max_size=3, unique=True)))
         elif method == 'get_beta_values':
-            a['my_betas'] = draw(st.one_of(st.none(), st.lists(st.sampled_from(free + ['B_UNKNOWN', 'B_X']),
-                                                                min_size=1, max_size=3, unique=True)))
+            # (the value unlike the default comes first: it is the one the simplest example carries)
+            a['my_betas'] = draw(st.one_of(st.lists(st.sampled_from(free + ['B_UNKNOWN', 'B_X']),
+                                                    min_size=1, max_size=3, unique=True), st.none()))
         elif method == 'get_betas_for_sensitivity_analysis':
             a['my_betas'] = draw(st.lists(st.sampled_from(free), min_size=1, max_size=3, unique=True))
             a['size'] = draw(st.integers(1, 6))
@@ -1380,8 +1439,8 @@ def _st_function(draw, alias_id, module, method, known):
             a['antithetic'] = draw(st.booleans())
         if method in ('get_latin_hypercube_draws', 'get_normal_wichura_draws'):
             total = n * (r // 2 if a.get('antithetic') else r)
-            a['uniform_numbers'] = draw(st.one_of(st.none(), st.lists(
-                st.floats(0.01, 0.99).map(lambda v: round(v, 4)), min_size=total, max_size=total)))
+            a['uniform_numbers'] = draw(st.one_of(st.lists(
+                st.floats(0.01, 0.99).map(lambda v: round(v, 4)), min_size=total, max_size=total), st.none()))
     elif module == 'biogeme.models.piecewise':
         k = draw(st.integers(2, 4))
         cuts = sorted(draw(st.lists(st.integers(-8, 24), min_size=k, max_size=k, unique=True)))
@@ -1859,10 +1918,16 @@ def _side_summary(o):
     return f'returns {_short(o["result"], 200)}'
 
 
+def _word(name):
+    """The name as a whole word ('seed' is not named by a text that says 'seed_param')."""
+    return re.compile(r'(?<![A-Za-z0-9_])' + re.escape(name) + r'(?![A-Za-z0-9_])')
+
+
 def _strip_one(ws, must_contain):
-    """Remove one DeprecationWarning whose text contains all given fragments; None if there is none."""
+    """Remove one DeprecationWarning whose text contains all given fragments (strings, or patterns from
+    _word); None if there is none."""
     for i, w in enumerate(ws):
-        if w[2] and all(f in w[1] for f in must_contain):
+        if w[2] and all(f.search(w[1]) if hasattr(f, 'search') else f in w[1] for f in must_contain):
             return ws[:i] + ws[i + 1:]
     return None
 
@@ -2028,29 +2093,129 @@ def _alias_strategy(a):
 # sub-check 2: obsolete keyword spelling == new keyword spelling
 
 
+def _unlike_default(tup):
+    """Legitimate values of a configuration parameter (biogeme.default_parameters.ParameterTuple) that
+    differ from its default: a value equal to the default cannot tell which parameter a keyword
+    reached. A fixed list filtered by the parameter's own validity checks (no randomness here)."""
+    d = tup.value
+    if isinstance(d, bool):
+        return [not d]
+    if isinstance(d, int):
+        candidates = [d + 1, d + 2, 2 * d + 5, 1, 2, 3, 12, -1]
+    elif isinstance(d, float):
+        candidates = [2 * d + 0.5, d + 1.0, d / 2, 0.25, 3.0]
+    else:
+        candidates = []
+    good = []
+    for c in candidates:
+        if c == d or c in good:
+            continue
+        try:
+            ok = all(check(c)[0] for check in (tup.check or ()))
+        except Exception:  # noqa: a check that cannot digest the value refuses it
+            ok = False
+        if ok:
+            good.append(c)
+    return good
+
+
+_SIGNATURE_VALUES = {
+    # constructor keywords that are parameters of the signature (default None for all of them)
+    'parameters': ['<Parameters>'],
+    'user_notes': ['some notes', '', 'notes with "quotes"', None],
+    'the_raw_results': ['<RawResults>'],
+    'pickle_file': ['<pickle>'],
+}
+
+
+def _init_values(r):
+    """Values for the constructor keyword a renaming points to, values unlike the default first (so
+    that they are frequent and survive shrinking); None if there is no generator."""
+    t = r.target_kw
+    if t is None:
+        return [True, False, 1]  # a keyword that is accepted and ignored
+    if t in r.open:
+        return _unlike_default(r.open[t]) + [r.open[t].value]
+    return _SIGNATURE_VALUES.get(t)
+
+
+def _slot_of(r):
+    """Name under which the value of a renamed keyword travels in World.args."""
+    return r.target_kw if r.target_kw else f'<ignored:{r.old_kw}>'
+
+
+def _siblings(r):
+    """The other keyword renamings of the same function."""
+    return [x for x in RENAMES if x.wrapper is r.wrapper and x.old_kw != r.old_kw]
+
+
 @st.composite
 def _st_init(draw, decl_cls, r):
-    """Constructor calls: the renamed keyword plus the arguments the constructor cannot do without."""
+    """Constructor calls: the renamed keyword, the arguments the constructor cannot do without, and
+    (BIOGEME) up to two of the other renamed keywords of the same constructor."""
     fam = _family_of(decl_cls)
     w = dict(model=draw(_st_model(max_rows=8)), args={})
-    new = r.new_kw
-    values = {
-        'number_of_threads': st.integers(1, 2), 'number_of_draws': st.integers(1, 5).map(lambda k: 2 * k),
-        'missing_data': st.sampled_from([99999, -1, 12345]), 'parameters': st.just('<Parameters>'),
-        'user_notes': st.sampled_from(['some notes', '', 'notes with "quotes"']),
-        'generate_html': st.booleans(), 'save_iterations': st.booleans(), 'seed': st.integers(0, 1000),
-        'the_raw_results': st.just('<RawResults>'), 'pickle_file': st.just('<pickle>'),
-        None: st.sampled_from([True, False, 1]),
-    }
-    if fam not in ('biogeme', 'results') or new not in values:
-        w['unbuildable'] = f'no value generator for constructor keyword {new!r} of {decl_cls.__name__}'
+    values = _init_values(r)
+    if fam not in ('biogeme', 'results') or not values:
+        w['unbuildable'] = f'no value generator for constructor keyword {r.target_kw!r} of {decl_cls.__name__}'
         return w
-    w['args'] = {'value': draw(values[new])}
+    w['args'] = {'value': draw(st.sampled_from(values))}
+    if fam == 'biogeme':
+        pool, taken = [], {_slot_of(r), 'parameters'}
+        for x in _siblings(r):
+            if _slot_of(x) not in taken and _init_values(x):
+                taken.add(_slot_of(x))
+                pool.append(x)
+        chosen = draw(st.lists(st.integers(0, len(pool) - 1), max_size=2, unique=True)) if pool else []
+        w['args']['companions'] = [[_slot_of(pool[i]), draw(st.sampled_from(_init_values(pool[i])))]
+                                   for i in sorted(chosen)]
     return w
 
 
-def _post_identity(result, world):
-    return result
+_PLAIN = (bool, int, float, str, type(None))
+
+
+def _plain(v, depth=0):
+    if isinstance(v, _PLAIN) or isinstance(v, np.generic):
+        return True
+    if depth < 3 and isinstance(v, (list, tuple, set, frozenset)):
+        return all(_plain(x, depth + 1) for x in v)
+    if depth < 3 and isinstance(v, dict):
+        return all(_plain(k, depth + 1) and _plain(x, depth + 1) for k, x in v.items())
+    return False
+
+
+def configuration(o):
+    """The complete public configuration of an object, by name: every public data attribute, every
+    property of its class, and every parameter of every parameter table (biogeme.parameters.Parameters)
+    it holds. Values that are objects are named by their type here (their content is compared through
+    the object itself)."""
+    names = {n for n in getattr(o, '__dict__', {}) if not n.startswith('_')}
+    for k in type(o).__mro__:
+        names |= {n for n, a in vars(k).items() if isinstance(a, property) and not n.startswith('_')}
+    conf = {}
+    with warnings.catch_warnings():
+        warnings.simplefilter('ignore')  # reading an obsolete property is not part of the call observed
+        for n in sorted(names):
+            try:
+                v = getattr(o, n)
+            except Exception as e:  # noqa: a property that cannot be read: reported, compared
+                conf[n] = ['raises', type(e).__name__]
+                continue
+            table = getattr(v, 'all_parameters_dict', None)
+            if isinstance(table, dict):
+                for key in sorted(table, key=lambda kk: (str(kk.section), str(kk.name))):
+                    conf[f'{n}[{key.section}.{key.name}]'] = table[key].value
+            elif _plain(v):
+                conf[n] = v
+            elif not inspect.isroutine(v):
+                conf[n] = f'<{type(v).__name__}>'
+    return conf
+
+
+def _post_constructed(result, world):
+    """A constructor returns the object: its configuration by name, then the whole object."""
+    return {'configuration': configuration(result), 'object': result}
 
 
 def _world_init(recv_cls, r, w):
@@ -2060,25 +2225,28 @@ def _world_init(recv_cls, r, w):
     if 'unbuildable' in w:
         raise Unbuildable(w['unbuildable'])
     v = w['args']['value']
-    name = r.new_kw if r.new_kw else f'<ignored:{r.old_kw}>'
+    name = _slot_of(r)
     if fam == 'biogeme':
         database, util, av, loglike = _model_objects(w['model'])
+        companions = [(n, x) for n, x in w['args'].get('companions', [])]
+        given = {name} | {n for n, _ in companions}
         args = [('database', database), ('formulas', loglike)]
-        if r.new_kw != 'parameters':
+        if 'parameters' not in given:
             args.append(('parameters', Parameters()))
-        else:
+        elif name == 'parameters':
             v = Parameters()
-        if r.new_kw != 'number_of_threads':
+        if 'number_of_threads' not in given:
             args.append(('number_of_threads', 1))
         args.append((name, v))
-        return World(receiver=None, args=args, post=_post_identity)
+        args += companions
+        return World(receiver=None, args=args, post=_post_constructed)
     results = _estimate(w['model'])
     if v == '<RawResults>':
         v = results.data
     elif v == '<pickle>':
         results.data.modelName = 'verif_c20_pickled'
         v = results.write_pickle()
-    return World(receiver=None, args=[(name, v)], post=_post_identity)
+    return World(receiver=None, args=[(name, v)], post=_post_constructed)
 
 
 def _kw_plan(r):
@@ -2102,18 +2270,37 @@ def _kw_resolver(pair):
     return resolve
 
 
+def _equals_default(v, d):
+    """Whether the value given to a renamed keyword is what the function would use anyway."""
+    if d is _NO_DEFAULT:
+        return False
+    if v is None or d is None:
+        return v is d
+    if isinstance(v, (bool, int, float, str)) and isinstance(d, (bool, int, float, str)):
+        return isinstance(v, bool) == isinstance(d, bool) and isinstance(v, str) == isinstance(d, str) and v == d
+    return False
+
+
 def _kw_job(spec, pair, plan):
     r = pair.item
     pk = _pair_key(pair, r.func_name) + ':' + r.old_kw
     key = lambda aspect: f'keyword:{pk}:{aspect}'  # noqa: E731
-    slot = r.new_kw if r.new_kw else f'<ignored:{r.old_kw}>'
+    # the new spelling is the keyword found by the purpose rule (independent of the table under test),
+    # the keyword named by the table only where the old name has no new spelling of its own
+    slot = _slot_of(r)
     call = _render_call(spec) + (f' on {_recv_label(pair)}' if pair.receiver is not None else '')
-    new_text = f'{r.new_kw}=' if r.new_kw else f'(without {r.old_kw})'
+    new_text = f'{r.target_kw}=' if r.target_kw else f'(without {r.old_kw})'
+    default = r.default
+    # the other renamed keywords of the function travel in their obsolete spelling too, if the case says so
+    companions = {_slot_of(x): x for x in _siblings(r) if _slot_of(x) != slot} if spec.get('companions_old') else {}
 
     def world_fn(s):
         world = plan.world(pair.receiver, s['w'])
-        if not any(n == slot for n, _ in world.args):
+        given = [x for n, x in world.args if n == slot]
+        if not given:
             world.missing = f'generator of {r.func_name} does not supply {slot!r}'
+        else:
+            world.info = dict(at_default=_equals_default(given[0], default))
         return world
 
     def evaluate(sides):
@@ -2136,19 +2323,39 @@ def _kw_job(spec, pair, plan):
         both_raise = old['exc'] is not None and new['exc'] is not None
         if both_raise:
             v.classes.append(f'both_raise:{r.func_name}:{old["exc"][0]}')
-        v.nontrivial = not both_raise
+        at_default = bool((old.get('info') or {}).get('at_default'))
+        with_old = [x for n, x in companions.items() if n in (old.get('arg_names') or [])]
+        v.classes.append(f'{r.func_name}:{r.old_kw}:' + ('value_is_the_default' if at_default else
+                                                       'no_default_known' if default is _NO_DEFAULT else
+                                                       'value_unlike_default'))
+        if with_old:
+            v.classes.append(f'{r.func_name}:{r.old_kw}:with_{len(with_old)}_more_obsolete_keywords')
+        v.nontrivial = not both_raise and not at_default
         _compare_sides(v, old, new, key, f'{r.func_name}({r.old_kw}=...)', f'{r.func_name}({new_text}...)', call)
-        rest = _strip_one(old['warnings'], [r.old_kw] + ([r.new_kw] if r.new_kw else []))
+        # one DeprecationWarning per obsolete keyword in the call, each naming the keyword and its
+        # replacement; nothing else on top of what the new spelling emits
+        rest = _strip_one(old['warnings'], [_word(r.old_kw)] + ([_word(r.target_kw)] if r.target_kw else []))
         if rest is None:
             v.fail(key('warning'), f'{call}: no DeprecationWarning naming {r.old_kw!r}'
-                                   f'{" and " + repr(r.new_kw) if r.new_kw else ""}; warnings: '
+                                   f'{" and " + repr(r.target_kw) if r.target_kw else ""}; warnings: '
                                    f'{old["warnings"][:3]}')
-        elif first_diff(rest, new['warnings']):
+            return v
+        for x in with_old:
+            less = _strip_one(rest, [_word(x.old_kw)])
+            if less is None:
+                v.fail(f'keyword:{_pair_key(pair, r.func_name)}:{x.old_kw}:warning',
+                       f'{call}: no DeprecationWarning naming {x.old_kw!r} although the call uses it; '
+                       f'warnings: {old["warnings"][:4]}')
+            else:
+                rest = less
+        if first_diff(rest, new['warnings']):
             v.fail(key('warning'), f'{call}: besides its own warning the obsolete spelling emits {rest[:3]} '
                                    f'whereas the new spelling emits {new["warnings"][:3]}')
         return v
 
-    by_side = dict(old={slot: r.old_kw}, new={slot: None} if not r.new_kw else {})
+    by_old = {slot: r.old_kw}
+    by_old.update({n: x.old_kw for n, x in companions.items()})
+    by_side = dict(old=by_old, new={slot: None} if not r.target_kw else {})
     return Job(pair, ('old', 'new'), world_fn, _kw_resolver(pair), by_side, evaluate)
 
 
@@ -2187,7 +2394,8 @@ def _kw_strategy(r):
     plan = _kw_plan(r)
     if plan.reason:
         return st.just(dict(item=r.id, np_seed=0, unplanned=plan.reason))
-    return st.fixed_dictionaries(dict(item=st.just(r.id), np_seed=st.integers(0, 2**31 - 1), w=plan.strategy))
+    return st.fixed_dictionaries(dict(item=st.just(r.id), np_seed=st.integers(0, 2**31 - 1), w=plan.strategy,
+                                      companions_old=st.sampled_from([True, False]) if _siblings(r) else st.just(False)))
 
 
 def _render_kw(spec):
@@ -2217,7 +2425,9 @@ def _make_subchecks():
         subs.append(SubCheck(
             f'keyword:{r.id}', (lambda tier, r=r: _kw_strategy(r)), judge_keyword, _render_kw,
             dict(quick=QUICK_PER_ITEM, thorough=THOROUGH_PER_ITEM),
-            f'{r.func_name}({r.old_kw}=) vs ({r.new_kw}=) on {n} receiver class(es)',
+            f'{r.func_name}({r.old_kw}=) vs ({r.target_kw}=) on {n} receiver class(es), values unlike the '
+            f'default, alone and next to the other obsolete keywords of the function; whole result / whole '
+            f'configuration of the constructed object compared',
             max_skip_fraction=1.0 if unplanned else 0.25))
     return subs
 
@@ -2229,5 +2439,10 @@ RULE = (f'one sub-check per discovered alias ({len(ALIASES)}) and per discovered
         'name / obsolete spelling vs replacement / new spelling on identically built worlds: result, '
         'exception, state of receiver and arguments, files written, exactly one extra DeprecationWarning '
         'naming the replacement, purpose rule (same name in the new spelling; "Same as X" in the '
-        'documentation); non-trivial: the receiver overrides the replacement or >= 2 arguments, and the '
-        'call does not raise')
+        'documentation); renamed keywords: the new spelling is the namesake keyword the function acts on '
+        '(not what the renaming table says), values differ from the default (booleans both ways), '
+        'alone and together with the other obsolete keywords of the function, a constructed object is '
+        'compared by its complete public configuration (every parameter of its parameter table, every '
+        'public attribute and property) and as a whole object graph; non-trivial: (alias) the receiver '
+        'overrides the replacement or >= 2 arguments, (keyword) the value differs from the default; '
+        'and the call does not raise')
